@@ -322,3 +322,4 @@ H("C16", "html/document", "VxH_C16_paint", reach=["laid-out", "drawn"], bounds="
 for _p in ("C15", "C01", "C18"):
     H(_p, "svg", "VxH_C15_svg_templates", reach=["resolved"], bounds="three gradient definitions, href of each one of {none, #g0, #g1, #g2} (all 64 reference graphs, cycles included), visiting order of the definitions map a solver-chosen permutation in two independent runs", quick={"maxsteps": 80000000, "shards": 6})
 H("C14", "svg", "VxH_C14_svg_dashes", mode="real", nonfinite_confirm=True, reach=["resolved", "pattern"], bounds="stroke-dasharray of 1..2 (thorough 3) px lengths and a px dash offset, all unbounded symbolic reals; paths with a float division by zero are decided by running their solver model natively")
+H("C15", "text/hyphen", "VxH_C15_hyphen_shared", reach=["hyphenated", "has-break"], bounds="a word of 3..4 (thorough 5) symbolic ASCII letters, lower or upper case, against a hand-built dictionary with two non-standard (Hungarian style) and two plain patterns; two Hyphener values sharing the dictionary data", quick={"shards": 4})
